@@ -701,6 +701,10 @@ func (v *Value) callResult(dst ssa.Value, call *ssa.Call, idx int) {
 		if a.mayNil && v.nilImpossibleHere(call, callee, idx) {
 			a.mayNil = false
 		}
+		if a.mayEmpty && a.mayFull && v.emptyImpossibleHere(call, callee, idx) {
+			a.mayEmpty = false
+			a.mayNil = false
+		}
 		acc = avJoin(acc, a)
 	}
 	if !acc.bot {
@@ -937,9 +941,101 @@ func (v *Value) SiteEnv(al *ssa.Alloc) map[string]AV {
 	for i := 0; i < st.NumFields(); i++ {
 		f := st.Field(i).Name()
 		a, _ := v.siteField(al, f, nil)
+		if a.mayEmpty && a.mayFull && v.listNonEmptyAtSite(al, f) {
+			a.mayEmpty, a.mayNil = false, false
+		}
 		env[f] = a
 	}
 	return env
+}
+
+// listNonEmptyAtSite: the slice stored in the field is built by appends in this function; the site
+// cannot be reached without a token having been consumed (under the facts of the function's call
+// sites), and every path from a token-consuming call to the site passes an append to that slice.
+func (v *Value) listNonEmptyAtSite(al *ssa.Alloc, field string) bool {
+	tk, w := v.tk, v.w
+	var stored ssa.Value
+	for _, u := range referrers(al) {
+		if fa, ok := u.(*ssa.FieldAddr); ok && fieldAddrName(fa) == field {
+			for _, fu := range referrers(fa) {
+				if st, ok := fu.(*ssa.Store); ok && st.Addr == ssa.Value(fa) {
+					stored = st.Val
+				}
+			}
+		}
+	}
+	if stored == nil {
+		return false
+	}
+	appends := map[ssa.Instruction]bool{}
+	for _, o := range phiOrigins(stored) {
+		if c, ok := o.(*ssa.Call); ok {
+			if bi, ok := c.Call.Value.(*ssa.Builtin); ok && bi.Name() == "append" {
+				appends[c] = true
+			}
+		}
+	}
+	if len(appends) == 0 {
+		return false
+	}
+	if tk.ReachableUnconsumed(al) {
+		return false
+	}
+	fn := al.Parent()
+	for _, b := range fn.Blocks {
+		for i, in := range b.Instrs {
+			ci, ok := in.(ssa.CallInstruction)
+			if !ok {
+				continue
+			}
+			consuming := false
+			for _, c := range w.Callees(ci) {
+				if c == tk.prim || (fnPkgPath(c) == modRoot && tk.touchesLexer(c)) {
+					consuming = true
+				}
+			}
+			if !consuming {
+				continue
+			}
+			// from just after this call, is the site reachable without passing an append?
+			if v.reachesInstrAvoiding(b, i+1, al, func(x ssa.Instruction) bool { return appends[x] }) {
+				return false
+			}
+		}
+	}
+	return true
+}
+
+func (v *Value) reachesInstrAvoiding(b *ssa.BasicBlock, from int, target ssa.Instruction, stop func(ssa.Instruction) bool) bool {
+	w := v.w
+	seen := map[*ssa.BasicBlock]bool{}
+	var visit func(blk *ssa.BasicBlock, i0 int) bool
+	visit = func(blk *ssa.BasicBlock, i0 int) bool {
+		dead := w.deadAt(blk)
+		for i := i0; i < len(blk.Instrs); i++ {
+			in := blk.Instrs[i]
+			if in == target {
+				return true
+			}
+			if stop(in) {
+				return false
+			}
+			if dead >= 0 && i == dead {
+				return false
+			}
+		}
+		for _, s := range blk.Succs {
+			if seen[s] {
+				continue
+			}
+			seen[s] = true
+			if visit(s, 0) {
+				return true
+			}
+		}
+		return false
+	}
+	return visit(b, from)
 }
 
 // FieldAV: the merged abstract value of a node field over all sites and stores (+ zero value of
@@ -1002,4 +1098,101 @@ func (v *Value) escapesUnset(al *ssa.Alloc, field string) bool {
 		return false
 	}
 	return visit(al.Block(), indexOf(al.Block(), al)+1)
+}
+
+// emptyImpossibleHere: the callee builds its result slice with append in a loop; under the kind
+// state of this call site it cannot return without consuming a token, and every path from a
+// token-consuming call to a return passes an append to the result: the result is non-empty here.
+func (v *Value) emptyImpossibleHere(call *ssa.Call, callee *ssa.Function, idx int) bool {
+	tk, w := v.tk, v.w
+	if !tk.touchesLexer(callee) {
+		return false
+	}
+	if _, isSlice := call.Type().Underlying().(*types.Slice); !isSlice && callee.Signature.Results().Len() == 1 {
+		// a node wrapping the list is handled at its own allocation site
+	}
+	st := tk.StateBefore(call)
+	if st == nil {
+		return false
+	}
+	sum := tk.summary(callee, st.cur, nil, false)
+	if sum.pass.m != nil && !sum.pass.IsEmpty() && st.cur.Overlaps(sum.pass) {
+		return false
+	}
+	// appends feeding the returned value
+	appends := map[ssa.Instruction]bool{}
+	for _, b := range callee.Blocks {
+		ret, ok := b.Instrs[len(b.Instrs)-1].(*ssa.Return)
+		if !ok || idx >= len(ret.Results) {
+			continue
+		}
+		for _, o := range phiOrigins(ret.Results[idx]) {
+			if c, ok := o.(*ssa.Call); ok {
+				if bi, ok := c.Call.Value.(*ssa.Builtin); ok && bi.Name() == "append" {
+					appends[c] = true
+				}
+			}
+		}
+	}
+	if len(appends) == 0 {
+		return false
+	}
+	isAppend := func(in ssa.Instruction) bool { return appends[in] }
+	for _, b := range callee.Blocks {
+		for i, in := range b.Instrs {
+			ci, ok := in.(ssa.CallInstruction)
+			if !ok {
+				continue
+			}
+			consuming := false
+			for _, c := range w.Callees(ci) {
+				if c == tk.prim || (fnPkgPath(c) == modRoot && tk.touchesLexer(c)) {
+					consuming = true
+				}
+			}
+			if !consuming {
+				continue
+			}
+			// from just after this call, can a return be reached without an append?
+			if v.reachesReturnAvoiding(b, i+1, isAppend) {
+				return false
+			}
+		}
+	}
+	return true
+}
+
+func (v *Value) reachesReturnAvoiding(b *ssa.BasicBlock, from int, stop func(ssa.Instruction) bool) bool {
+	w := v.w
+	seen := map[*ssa.BasicBlock]bool{}
+	var visit func(blk *ssa.BasicBlock, i0 int) bool
+	visit = func(blk *ssa.BasicBlock, i0 int) bool {
+		dead := w.deadAt(blk)
+		for i := i0; i < len(blk.Instrs); i++ {
+			in := blk.Instrs[i]
+			if stop(in) {
+				return false
+			}
+			if dead >= 0 && i == dead {
+				return false
+			}
+			switch in.(type) {
+			case *ssa.Return:
+				return true
+			case *ssa.Panic:
+				return false
+			}
+		}
+		for _, s := range blk.Succs {
+			if seen[s] {
+				continue
+			}
+			seen[s] = true
+			if visit(s, 0) {
+				return true
+			}
+		}
+		return false
+	}
+	return visit(b, from)
 }
